@@ -57,7 +57,7 @@ class Session:
         self.notes = []
         self.selfchecks = 0
         self.t0 = time.time()
-        self.timeout_ms = 30000 if tier == 'quick' else 120000
+        self.timeout_ms = 30000 if tier == 'quick' else 150000
         self.extra_axioms = None
         self.extra_cover = {}
 
@@ -122,13 +122,26 @@ class Session:
             texts[ob.id] = text
             st, mdl, secs, reason = smt.solve_smt2(text, 300)
             ob.seconds += secs
+            to = ob.timeout or self.timeout_ms
             if st == 'unsat':
                 ob.status, ob.backend = 'proved', 'z3'
-            elif st == 'sat':
+            elif st == 'sat' and not ob.hints:
                 ob.status, ob.backend, ob.model = 'refuted', 'z3', mdl
+            elif ob.hints:
+                # hints are valid facts (e.g. Gram inequalities): a model of the plain query is not a refutation
+                text2 = smt.to_smt2(ob.hyps + ob.hints, ob.goal, self.extra_axioms)
+                texts[ob.id] = text2
+                st2, mdl2, secs2, reason2 = smt.solve_smt2(text2, 500)
+                ob.seconds += secs2
+                if st2 == 'unsat':
+                    ob.status, ob.backend = 'proved', 'z3+facts'
+                elif st2 == 'sat':
+                    ob.status, ob.backend, ob.model = 'refuted', 'z3+facts', mdl2
+                else:
+                    jobs.append((ob.id, text2, to, ['z3', 'nlsat', 'cvc5']))
+                    ob.hints = []
             else:
-                to = ob.timeout or self.timeout_ms
-                jobs.append((ob.id, text, to, ['z3', 'nlsat', 'cvc5', 'z3old']))
+                jobs.append((ob.id, text, to, ['z3', 'nlsat', 'cvc5']))
         if jobs:
             if verbose:
                 print('  [%s] %d obligations to the solver pool' % (self.prop, len(jobs)), flush=True)
@@ -249,6 +262,7 @@ class Session:
             undischarged=[ob.id for ob in failures],
             samples=samples or self._samples(),
             clauses=sorted({ob.clause for ob in self.obs if ob.kind not in ('canary', 'cover')}),
+            slowest=[dict(id=ob.id, seconds=round(ob.seconds, 2), backend=ob.backend) for ob in sorted(self.obs, key=lambda o: -o.seconds)[:8]],
             notes=self.notes,
         )
         if extra:
